@@ -145,6 +145,8 @@ XalanDOMString::resize(
 
     if (theCount != theOldSize)
     {
+        const bool  hadBuffer = !m_data.empty();
+
         if (theOldSize == 0)
         {
             // If the string is of 0 length, resize but add an
@@ -157,6 +159,12 @@ XalanDOMString::resize(
             // put a copy of theChar where the terminating
             // byte used to be.
             m_data.resize(theCount + 1, theChar);
+        }
+
+        if (hadBuffer == true && theCount > theOldSize)
+        {
+            // The old terminator is now inside the string...
+            m_data[theOldSize] = theChar;
         }
 
         m_size = theCount;
